@@ -230,6 +230,11 @@ def generated_reset_observations(tier):
             psets.append(realise(row, seed))
     for seed in range(20 if tier == "quick" else 60):
         psets.append({"num_hosts": 8, "num_services": 4, "num_exploits": 3, "seed": seed})
+    # more hosts than vector columns, extreme values on late rows, fractional extremes
+    for seed in range(2 if tier == "quick" else 6):
+        psets.append({"num_hosts": 40, "num_services": 3, "r_sensitive": 20, "r_user": 60, "seed": seed})
+        psets.append({"num_hosts": 60, "num_services": 2, "num_os": 1, "num_processes": 1, "r_sensitive": 7.5,
+                      "r_user": 90.5, "base_host_value": -2.5, "host_discovery_value": 3, "seed": seed})
     for p in psets:
         try:
             sc = nasim.generate_scenario(**dict(p))
